@@ -174,6 +174,38 @@ theorem chain_unsupported (freq ie pad : List Nat) (pcs : Bool) (freqMap ma0 : L
   simp only [causeFreqNotImpl]
   rfl
 
+/-- **SI4 CBCH caller** (sysinfo.c:997 → app_cbch_sniff.c `try_cbch`): the decoded list goes into the
+L1CTL message as it is — same channels, same order, `n = N` — WITHOUT the PCS conversion of
+`gsm48_rr_render_ma`: in a cell that refers to PCS 1900 the channels 512..810 of a hopping CBCH reach
+trxcon and the firmware as DCS 1800 numbers (observation; from there on `chain_trxcon_side`,
+`chain_fake_trx`, `chain_channel` apply to the list `decoded freq ie`). -/
+theorem chain_cbch_side (freq ie hop0 : List Nat) (hl0 hsn maio : Nat)
+    (hf : freq.length = 1024) (hl1 : 1 ≤ ie.length) (hl8 : ie.length ≤ 8) (h0 : hop0.length = 64)
+    (hh : hsn < 256) (hm : maio < 256) :
+    ∃ rest, cbchPath freq ie ie.length hop0 hl0 hsn maio =
+      .ok (decoded freq ie ++ rest, (decoded freq ie).length, l1ctlMsg hsn maio (decoded freq ie)) ∧
+      rest = hop0.drop (decoded freq ie).length := by
+  obtain ⟨hN', _, _⟩ := decoded_facts freq ie
+  have hN := hN' hl8
+  obtain ⟨st, hdec, hlist, hlen, _, _, _, hcap, hrest⟩ :=
+    C20.decode_ma_spec freq ie ie.length hop0 hl0 true hf rfl hl8 (by omega)
+  have hst : st.hopping = decoded freq ie ++ hop0.drop (decoded freq ie).length := by
+    have := List.take_append_drop st.hoppLen st.hopping
+    rw [← this, hrest, hlen]
+    simp only [hoppingList, hlen] at hlist
+    rw [hlist]; rfl
+  have hlen' : st.hoppLen = (decoded freq ie).length := hlen
+  have hht := htonsLoop_ok (decoded freq ie) [] (hop0.drop (decoded freq ie).length) [] (List.replicate 128 0)
+    rfl (by simp only [List.length_replicate]; omega)
+  simp only [List.nil_append, List.length_nil, List.drop_replicate] at hht
+  have hu8 : HopChain.u8 (decoded freq ie).length = (decoded freq ie).length := by simp only [HopChain.u8]; omega
+  have hoc : l1ctlOctets = 128 := tree_constants.2.2.1
+  have e1 : HopChain.u8 hsn = hsn := by simp only [HopChain.u8]; omega
+  have e2 : HopChain.u8 maio = maio := by simp only [HopChain.u8]; omega
+  refine ⟨_, ?_, rfl⟩
+  simp only [cbchPath, hdec, l1ctlTxDmEstReqH1, hst, hlen', hu8, hoc, hht, e1, e2, bind, Except.bind, pure, Except.pure,
+    l1ctlMsg]
+
 /-! ### trxcon: L1CTL message → `CMD SETFH` -/
 
 /-- **trxcon, L1CTL side.** `l1ctl_proc_est_req_h1` on the message of `chain_ms_side`: `n` is neither 0
@@ -265,6 +297,34 @@ theorem chain_fits (chans : List Nat) (hv : ∀ b ∈ chans, TrxconIf.ValidArfcn
         ih (fun x hx => h14 x (by simp [hx]))]
       omega
   omega
+
+/-- **The exact limit.** The text of a list with `a` channels below 1 GHz and `b` channels of DCS 1800 /
+PCS 1900 has `14·a + 16·b` characters; it fits iff `14·a + 16·b ≤ 999`.  For a pure DCS / PCS
+allocation that is `N ≤ 62`: the legal sizes 63 and 64 are refused (`chain_setfh_full_fails`). -/
+theorem chain_enospc_limit (chans : List Nat) (hv : ∀ b ∈ chans, TrxconIf.ValidArfcn b) :
+    ∃ a b, a + b = chans.length ∧ (TrxconIf.maText chans).length = 14 * a + 16 * b ∧
+      a = (chans.filter fun c => (TrxconIf.pairOf c).length == 14).length ∧
+      ((TrxconIf.maText chans).length ≤ 999 ↔ 14 * a + 16 * b ≤ 999) ∧
+      (a = 0 → ((TrxconIf.maText chans).length ≤ 999 ↔ chans.length ≤ 62)) := by
+  induction chans with
+  | nil => exact ⟨0, 0, rfl, rfl, rfl, by simp [TrxconIf.maText], fun _ => by simp [TrxconIf.maText]⟩
+  | cons c t ih =>
+    obtain ⟨a, b, hab, hlen, hcnt, _, _⟩ := ih (fun x hx => hv x (List.mem_cons_of_mem _ hx))
+    have hc := (TrxconIf.pairOf_facts c (hv c List.mem_cons_self)).1
+    rcases hc with h14 | h16
+    · refine ⟨a + 1, b, by simp only [List.length_cons]; omega, ?_, ?_, ?_, ?_⟩
+      · rw [TrxconIf.maText_cons, List.length_append, h14, hlen]; omega
+      · simp only [List.filter_cons, h14, beq_self_eq_true, if_true, List.length_cons, hcnt]
+      · rw [TrxconIf.maText_cons, List.length_append, h14, hlen]; omega
+      · intro h; omega
+    · refine ⟨a, b + 1, by simp only [List.length_cons]; omega, ?_, ?_, ?_, ?_⟩
+      · rw [TrxconIf.maText_cons, List.length_append, h16, hlen]; omega
+      · have : ((TrxconIf.pairOf c).length == 14) = false := by rw [h16]; rfl
+        simp only [List.filter_cons, this, Bool.false_eq_true, if_false, hcnt]
+      · rw [TrxconIf.maText_cons, List.length_append, h16, hlen]; omega
+      · intro h
+        rw [TrxconIf.maText_cons, List.length_append, h16, hlen]
+        simp only [List.length_cons]; omega
 
 /-- **`chain_setfh`.** For every cell allocation and Mobile Allocation IE of the domain whose text
 fits, every HSN/MAIO: the MS side ends in exactly one TRXC datagram, `CMD SETFH hsn maio rx1 tx1 … rxN
@@ -402,6 +462,58 @@ theorem chain_channel (w : World.World) (i : Nat) (t : World.Trx) (ht : w.trxs[i
   · simp only [World.Trx.getRxFreq, World.Trx.hop, Hopping.Trx.getRxFreq, hpy]
   · simp only [World.Trx.getTxFreq, World.Trx.hop, Hopping.Trx.getTxFreq, hpy]
   · rw [hfw, hfwv]
+
+/-- the channel TS 45.002 selects from a list mapped channel by channel is the image of the channel
+it selects from the list (the MAI depends on the length only) -/
+theorem select_map {α β : Type} (f : α → β) (l : List α) (hsn maio fn : Nat) :
+    Spec.Hopping.select (l.map f) hsn maio fn = (Spec.Hopping.select l hsn maio fn).map f := by
+  simp only [Spec.Hopping.select, List.length_map]
+  cases Spec.Hopping.mai hsn maio l.length fn with
+  | none => rfl
+  | some i => simp only [List.getElem?_map]
+
+/-- **End to end.** For every cell allocation and Mobile Allocation IE of the domain (text fitting
+trxcon's buffer), every HSN/MAIO 0..63 and every frame of the hyperframe: the MS side sends one
+L1CTL message and trxcon one `CMD SETFH` datagram; fake_trx answers `RSP SETFH 0 …` and from then on
+its Rx/Tx frequency in frame `fn` is the pair of the channel `v` = decoded[MAI] that TS 45.002 §6.2.3
+selects from the DECODED list (order of TS 44.018), while the firmware, fed with the same L1CTL message,
+tunes to that very ARFCN: MS and simulated BTS meet on the same channel in every frame. -/
+theorem chain_end_to_end (freq ie pad : List Nat) (pcs : Bool) (freqMap ma0 : List Nat) (hsn maio : Nat)
+    (hd : Dom freq ie pcs freqMap) (h0 : ma0.length = 64) (hh : hsn < 64) (hm : maio < 64)
+    (hfit : Fits pcs freq ie)
+    (w : World.World) (i : Nat) (t : World.Trx) (ht : w.trxs[i]? = some t) (fn : Nat) (hfn : fn < 2715648) :
+    ∃ msg dgram v t',
+      msPath freq (ie.length :: ie ++ pad) pcs freqMap ma0 hsn maio = .ok (.sent (band pcs freq ie) msg) ∧
+      trxconPath msg = .ok (0, [dgram]) ∧ dgram = setfhDatagram hsn maio (band pcs freq ie) ∧
+      (fakeTrxPath w i dgram).out = [⟨t.ctrlPort, t.addr, t.ctrlRemote, setfhReply hsn maio (band pcs freq ie)⟩] ∧
+      (fakeTrxPath w i dgram).world.trxs[i]? = some t' ∧
+      Spec.Hopping.select (decoded freq ie) hsn maio fn = some v ∧
+      t'.getRxFreq fn = .ok (some (hzPair (toBand pcs v)).1) ∧
+      t'.getTxFreq fn = .ok (some (hzPair (toBand pcs v)).2) ∧
+      fwPath msg fn = .ok (.ok (toBand pcs v)) := by
+  have hms := (chain_ms_side freq ie pad pcs freqMap ma0 hsn maio hd h0 (by omega) (by omega)).2
+  obtain ⟨msg, h1, h2, hbl, hlen⟩ := chain_setfh freq ie pad pcs freqMap ma0 hsn maio hd h0 hh hm hfit
+  have hmsg : msg = l1ctlMsg hsn maio (band pcs freq ie) := by
+    rw [hms] at h1
+    simp only [Except.ok.injEq, MsOut.sent.injEq] at h1; exact h1.2.symm
+  obtain ⟨hf, hl1, hl8, hne, hval, hsup⟩ := hd
+  obtain ⟨_, hbu⟩ := band_facts pcs freq ie
+  have hbne : band pcs freq ie ≠ [] := by
+    intro e; apply hne; have := congrArg List.length e; rw [hbl] at this; exact List.eq_nil_of_length_eq_zero this
+  have hN : (band pcs freq ie).length ≤ 64 := by rw [hbl]; exact (decoded_facts freq ie).1 hl8
+  obtain ⟨vb, t', hs, htr, hrx, htx, hfw⟩ := chain_channel w i t ht hsn maio (band pcs freq ie) hh hm hbne hN hbu hlen fn hfn
+  have hsel : Spec.Hopping.select (band pcs freq ie) hsn maio fn
+      = (Spec.Hopping.select (decoded freq ie) hsn maio fn).map (toBand pcs) := select_map _ _ _ _ _
+  rw [hsel] at hs
+  cases hv : Spec.Hopping.select (decoded freq ie) hsn maio fn with
+  | none => rw [hv] at hs; cases hs
+  | some v =>
+    rw [hv] at hs
+    simp only [Option.map_some, Option.some.injEq] at hs
+    subst hs
+    refine ⟨msg, _, v, t', h1, h2, rfl, ?_, htr, rfl, hrx, htx, ?_⟩
+    · rw [chain_fake_trx w i t ht hsn maio (band pcs freq ie) hh hbne hlen]
+    · rw [hmsg]; exact hfw
 
 /-- **`chain_injective`.** Distinct channels of the decoded list have distinct frequency pairs
 (already distinct Rx frequencies), so on the simulated air interface "same frequency" is "same
